@@ -227,6 +227,10 @@ func runC15(rep *TReport, raw json.RawMessage) {
 			claims["exp"] = now.Add(-Tick).Unix()
 		case "string":
 			claims["exp"] = "tomorrow"
+		case "future_frac":
+			claims["exp"] = float64(now.Add(Tick).Unix()) + 0.5
+		case "past_frac":
+			claims["exp"] = float64(now.Add(-Tick).Unix()) + 0.5
 		}
 		if f("jti") == "fresh" {
 			claims["jti"] = freshJTI()
@@ -314,6 +318,10 @@ func runC15(rep *TReport, raw json.RawMessage) {
 			claims["exp"] = now.Add(-Tick).Unix()
 		case "beyond_max":
 			claims["exp"] = now.Add(40 * 24 * time.Hour).Unix()
+		case "future_frac":
+			claims["exp"] = float64(now.Add(Tick).Unix()) + 0.5
+		case "past_frac":
+			claims["exp"] = float64(now.Add(-Tick).Unix()) + 0.5
 		}
 		switch f("nbf") {
 		case "past":
@@ -323,7 +331,7 @@ func runC15(rep *TReport, raw json.RawMessage) {
 		}
 		if f("iat") == "present" {
 			claims["iat"] = now.Unix()
-			if f("exp") == "past" { // an assertion that expired was issued before it expired
+			if f("exp") == "past" || f("exp") == "past_frac" { // an assertion that expired was issued before it expired
 				claims["iat"] = now.Add(-2 * Tick).Unix()
 			}
 		}
